@@ -89,13 +89,21 @@ type FuncSpec struct {
 	GhostSets   []GhostSet // ghost updates executed at every return, before the postconditions are checked
 	BoundK      int        // bounded mode: loops without invariant unrolled BoundK times (0 = unbounded proof)
 	BoundD      int        // bounded mode: self-recursion inlined to this depth
+	CallAsserts []CallAssert    // caller-side assertions at a particular call site: `atcall <callee> <n>: expr`
 	BoundAssume []Clause        // assumed at entry only when this function is itself checked in bounded mode (states the shape bound)
 	Unknown     map[string]bool // package-level variables whose (constant) initial value must not be used: both settings are verified
+}
+
+type CallAssert struct {
+	Callee string // suffix of the callee's name
+	Ord    int    // n-th call of that callee executed on the path (1-based); 0: every call
+	C      Clause
 }
 
 type GhostSet struct {
 	Ghost string
 	Arg   Expr
+	Arg2  Expr
 	Val   Expr
 	Src   string
 }
@@ -151,6 +159,8 @@ type FrameSpec struct {
 	NoDirectRead []string  // interface types whose Read method must not be invoked by in-repo code in the reach set
 	MapRangeOnly []string  // functions allowed to range over a map
 	HasMapRange  bool
+	GlobalReadsOnly []string // in-repo package-level variables of reference type (map, slice, pointer, chan, func, interface) that may be read
+	HasGlobalReads  bool
 	GlobalAddrOnly []string // callee name prefixes that may receive the address of a package-level variable
 	PkgPath    string
 	File       string
@@ -251,7 +261,7 @@ type parser struct {
 
 var itemKw = map[string]bool{"frame": true, "pred": true, "spec": true, "ghost": true, "lemma": true, "iface": true, "func": true, "extern": true, "axiom": true, "package": true}
 var clauseKw = map[string]bool{"requires": true, "ensures": true, "modifies": true, "reads": true, "panics": true, "decreases": true,
-	"checks": true, "inline": true, "trusted": true, "loop": true, "invariant": true, "pure": true, "returns": true, "nilable": true, "params": true, "nosafety": true, "fresh": true, "ghostset": true, "bounded": true, "unknown": true, "boundedassume": true}
+	"checks": true, "inline": true, "trusted": true, "loop": true, "invariant": true, "pure": true, "returns": true, "nilable": true, "params": true, "nosafety": true, "fresh": true, "ghostset": true, "bounded": true, "unknown": true, "boundedassume": true, "atcall": true}
 
 func (p *parser) peek() tok { return p.toks[p.p] }
 func (p *parser) next() tok { t := p.toks[p.p]; p.p++; return t }
@@ -851,6 +861,9 @@ func parseSpecText(file, pkgPath, src string, sp *Specs) (err error) {
 						p.next()
 					}
 					fs.MapRangeOnly = append(fs.MapRangeOnly, readList()...)
+				case "globalreadsonly":
+					fs.HasGlobalReads = true
+					fs.GlobalReadsOnly = append(fs.GlobalReadsOnly, readList()...)
 				case "globaladdronly":
 					fs.GlobalAddrOnly = append(fs.GlobalAddrOnly, readList()...)
 				default:
@@ -909,6 +922,14 @@ func parseSpecText(file, pkgPath, src string, sp *Specs) (err error) {
 					f.NoSafety = true
 				case "boundedassume":
 					f.BoundAssume = append(f.BoundAssume, p.parseClause())
+				case "atcall":
+					ca := CallAssert{Callee: p.parseFuncRef2()}
+					if p.peek().k == "int" {
+						fmt.Sscanf(p.next().s, "%d", &ca.Ord)
+					}
+					p.expectOp(":")
+					ca.C = p.parseClause()
+					f.CallAsserts = append(f.CallAsserts, ca)
 				case "unknown":
 					if f.Unknown == nil {
 						f.Unknown = map[string]bool{}
@@ -926,10 +947,15 @@ func parseSpecText(file, pkgPath, src string, sp *Specs) (err error) {
 					g := p.ident()
 					p.expectOp("(")
 					arg := p.parseExpr()
+					var arg2 Expr
+					if p.isOp(",") {
+						p.next()
+						arg2 = p.parseExpr()
+					}
 					p.expectOp(")")
 					p.expectOp("=")
 					val := p.parseExpr()
-					f.GhostSets = append(f.GhostSets, GhostSet{g, arg, val, p.srcBetween(a, p.p)})
+					f.GhostSets = append(f.GhostSets, GhostSet{g, arg, arg2, val, p.srcBetween(a, p.p)})
 				case "trusted":
 					t := p.next()
 					f.Trusted = t.s
@@ -965,8 +991,12 @@ func parseSpecText(file, pkgPath, src string, sp *Specs) (err error) {
 					var k int
 					fmt.Sscanf(t.s, "%d", &k)
 					p.expectOp(":")
-					curLoop = &LoopSpec{}
-					f.Loops[k] = curLoop
+					if existing, ok := f.Loops[k]; ok {
+						curLoop = existing
+					} else {
+						curLoop = &LoopSpec{}
+						f.Loops[k] = curLoop
+					}
 				case "invariant":
 					if curLoop == nil {
 						p.fail("invariant outside loop")
